@@ -182,6 +182,23 @@ class Check(PropCheck):
                     yield self.mk([], attrs=attrs, how=how, tag=tag, origin='creation', copy_view=cv)
                 for a in small[:10]:
                     yield self.mk([a], attrs=attrs, how=how, tag=tag, origin='creation')
+        # a view that was read before a write must not remember what it saw: read, write, read again on ONE element
+        # (every other family reads each view on a fresh replay)
+        for key, dn in (('foo', None), ('checked', 'checked'), ('id', 'id'), ('FOO', None), ('title', 'title')):
+            lk = key.lower()
+            per_key = [['has', key], ['in', key], ['item', key], ['get', key], ['getd', key], ['attr', key], ['attrd', key],
+                       ['domitem', key], ['domitem', lk], ['domkeys'], ['keys'], ['items'], ['list'], ['dict'], ['startTag'], ['clone']]
+            if dn:
+                per_key.append(['dotget', dn])
+            writers = [['sa', key, 'new'], ['ms', lk, ''], ['ra', key], ['md', lk], ['sas', [[lk, 'new2']]]]
+            if dn:
+                writers.append(['dot', dn, True if dn == 'checked' else 'dotted'])
+            for start in ([], [['sa', lk, 'old']]):
+                for v in per_key:
+                    for w in writers:
+                        yield self.mk(start + [['read', v], w, ['read', v]], origin='reread', keys=sorted(set(KEYS + [key, lk])))
+                        yield self.mk(start + [['read', v], w, ['read', v], ['sa', lk, 'third'], ['read', v]], origin='reread',
+                                      keys=sorted(set(KEYS + [key, lk])))
         n = 5000 if tier == 'thorough' else 500
         for _ in range(n):
             yield Case(self.random_case(rng), 'random')
@@ -231,7 +248,8 @@ class Check(PropCheck):
                                  ['sa', 'style', '\xa0float\u3000:\x85left ;\x1c'], ['st', 'color:\u2003red\xa0']))
             else:
                 it = ['read', rng.choice((['keys'], ['items'], ['startTag'], ['list'], ['get', nm], ['attr', nm], ['clone'],
-                                          ['domkeys'], ['item', nm], ['has', nm]))]
+                                          ['domkeys'], ['item', nm], ['has', nm], ['domitem', nm], ['domitem', nm.lower()],
+                                          ['in', nm], ['getd', nm], ['attrd', nm], ['dict']))]
             hist.append(it)
         attrs = []
         for _ in range(rng.choice((0, 0, 1, 2, 4))):
